@@ -393,7 +393,7 @@ impl<'a> Packet<'a> {
     /// `Some(bool)` to tell whether this connection uses the token. If you
     /// call this on a packet not associated to a connection, use `None`.
     ///
-    /// `buffer` needs to have at least size `MAX_PAYLOAD`.
+    /// `buffer` needs to have at least size `MAX_PACKETSIZE`.
     pub fn read<'b, B, W>(
         warn: &mut W,
         bytes: &'b [u8],
